@@ -1896,6 +1896,8 @@ fn forward_device_data(
 
     if len >= MAX_CHANNEL_CAPACITY - 1 {
         debug!("Outgoing channel reached its capacity");
+        #[cfg(feature = "verif-hooks")]
+        crate::verif::pause("forwards-pushed-before-unschedule");
         outgoing.push_notification(Notification::Unschedule);
         outgoing.handle.try_send(()).ok();
         return ConsumeStatus::BufferFull;
